@@ -365,7 +365,15 @@ fn tk2_decode(schema: &[Col], bytes: &[u8]) -> (Vec<Val>, Result<(), tuple_key2:
                 out.push(v);
                 consumed = p.offset();
             }
-            Err(e) => return (out, Err(e), consumed),
+            Err(e) => {
+                // a parser that reported an error is still an object the caller holds: asking it
+                // where it stands must not panic (C16: arbitrary bytes yield an error, not a panic)
+                let _ = p.offset();
+                let _ = p.remaining();
+                let _ = p.is_empty();
+                let _ = p.finish();
+                return (out, Err(e), consumed);
+            }
         }
     }
     let _ = p.remaining();
